@@ -2564,7 +2564,13 @@ def h_time(ev, args, kwargs, fr, node):
     if isinstance(x, (StrV, NoneV, BoolV, DictV, ListV, TupleV)) or (isinstance(x, Num) and x.kind != "time"):
         if isinstance(x, Num) and kwargs.get("format") is not None and isinstance(kwargs["format"], StrV) \
                 and kwargs["format"].s == "mjd":
-            return Num(x.expr * 86400 / UNITS["Hz"], kind="time")
+            val2 = kwargs.get("val2", args[1] if len(args) > 1 else None)
+            if val2 is None or isinstance(val2, NoneV):
+                # a day number held in ONE double: resolution ~1e-11 day (about a microsecond) for modern dates
+                ev.trace.append(("time-from-double", norm(node) if node is not None else "", x))
+                return Num(x.expr * 86400 / UNITS["Hz"], kind="time")
+            if isinstance(val2, Num):
+                return Num((x.expr + val2.expr) * 86400 / UNITS["Hz"], kind="time")
         raise Raised("ValueError", node, "Time() of a non-Time value")
     ev.unsupported(f"Time({x!r})", node, fr)
 
